@@ -60,6 +60,19 @@ type RawCase struct {
 	Client    string `json:"client,omitempty"` // QUIC client under the http3.Transport (Side "server")
 	RTTms     int    `json:"rtt_ms"`
 	Seed      uint64 `json:"seed"`
+	// widths of the varints the raw peer writes (see varintWidth in rawlib_test.go); 0 / absent: all minimal
+	VSeed uint64 `json:"vseed,omitempty"`
+	VDens int    `json:"vdens,omitempty"`
+}
+
+// genVarintEnc draws the varint-encoding dimension: density 0 (all minimal, also the shrink target) .. 3 (every
+// varint longer than necessary).
+func genVarintEnc(t *rapid.T) (uint64, int) {
+	dens := rapid.SampledFrom([]int{0, 1, 2, 2, 3, 3}).Draw(t, "vdens")
+	if dens == 0 {
+		return 0, 0
+	}
+	return rapid.Uint64Range(0, 1<<40).Draw(t, "vseed"), dens
 }
 
 // ---- generator ----
@@ -200,6 +213,7 @@ func genRawCase(t *rapid.T) RawCase {
 		c.RspBody = rapid.OneOf(rapid.IntRange(0, 2000), rapid.IntRange(8192, 60000), rapid.Just(200<<10), rapid.Just(200<<10)).Draw(t, "rspbody")
 		c.DeclT = rapid.SampledFrom([]string{"", "valid", "valid", "invalid", "prefix"}).Draw(t, "declt")
 	}
+	c.VSeed, c.VDens = genVarintEnc(t)
 	return c
 }
 
@@ -365,6 +379,9 @@ func init() {
 
 func runRaw(c RawCase, rec recorder) *vf.Verdict {
 	var v *vf.Verdict
+	setVarintEnc(c.VSeed, c.VDens)
+	defer setVarintEnc(0, 0)
+	rec.Class(fmt.Sprintf("varint-density:%d", c.VDens))
 	sim.Bubble(curT, 40*time.Second, func() {
 		switch c.Scn + "/" + c.Side {
 		case "frames/client":
@@ -904,7 +921,7 @@ func modelUni(c *RawCase) uniExpect {
 // uniActor performs the scenario on a connection: open opens a unidirectional stream; hadControl tells whether the
 // conforming control stream (type + SETTINGS) is already open (then ctrl is that stream).
 func uniActor(c *RawCase, open func() (*quic.SendStream, error), ctrl *quic.SendStream) error {
-	settings := appendFrame(nil, ftSettings, settingsPayload())
+	settings := rawSettingsFrame()
 	finish := func(str *quic.SendStream) {
 		switch c.UniEnd {
 		case "fin":
@@ -1109,14 +1126,14 @@ func uniVsClient(c RawCase, rec recorder) *vf.Verdict {
 	acted := make(chan struct{})
 	f.rs.onConn = func(sc *rawServerConn) {
 		if sc.idx != 0 {
-			sc.openControl(appendFrame(nil, ftSettings, settingsPayload()))
+			sc.openControl(rawSettingsFrame())
 			return
 		}
 		mu.Lock()
 		first = sc
 		mu.Unlock()
 		if !uniNeedsOwnControl(&c) {
-			sc.openControl(appendFrame(nil, ftSettings, settingsPayload()))
+			sc.openControl(rawSettingsFrame())
 		}
 	}
 	f.rs.onStream = func(sc *rawServerConn, str *quic.Stream, idx int) {
